@@ -171,7 +171,12 @@ func (r *Report) Finish(c *Ctx, tier string, seed int64, wall float64, verifDir 
 			out.Obligations++
 		case StViolation, StUndecided:
 			out.Obligations++
-			if k, ok := openKnown[o.Key]; ok && o.Status == StViolation {
+			k, ok := openKnown[o.Key]
+			if !ok && c != nil {
+				// the construct may carry the new name of a renamed function: recorded findings use the baseline name
+				k, ok = openKnown[baselineKey(o.Key, c.OldShortNames())]
+			}
+			if ok && o.Status == StViolation {
 				out.KnownHits = append(out.KnownHits, k)
 				knownObls = append(knownObls, o)
 			} else {
@@ -282,4 +287,33 @@ func (r *Report) Finish(c *Ctx, tier string, seed int64, wall float64, verifDir 
 		fmt.Printf("OK property=%s tier=%s obligations=%d discharged=%d known_findings=%d\n", r.Prop, tier, out.Obligations, out.Discharged, len(out.KnownHits))
 	}
 	return out
+}
+
+// baselineKey rewrites every identifier of key that is the new name of a renamed symbol to its baseline name.
+func baselineKey(key string, old map[string]string) string {
+	if len(old) == 0 {
+		return key
+	}
+	isId := func(b byte) bool {
+		return b == '_' || (b >= '0' && b <= '9') || (b >= 'a' && b <= 'z') || (b >= 'A' && b <= 'Z')
+	}
+	var sb strings.Builder
+	for i := 0; i < len(key); {
+		if !isId(key[i]) {
+			sb.WriteByte(key[i])
+			i++
+			continue
+		}
+		j := i
+		for j < len(key) && isId(key[j]) {
+			j++
+		}
+		w := key[i:j]
+		if o, ok := old[w]; ok {
+			w = o
+		}
+		sb.WriteString(w)
+		i = j
+	}
+	return sb.String()
 }
